@@ -92,13 +92,13 @@ type env struct {
 	viol  []Violation
 	step  int
 
-	opSeq         int
-	allOps        map[uint64]*opRec // by id, across sessions (ids are unique per run unless a family says otherwise)
+	opSeq  int
+	allOps map[uint64]*opRec // by id, across sessions (ids are unique per run unless a family says otherwise)
 	// shadow: operations still held for an EARLIER session whose id a later session has used again (a new
 	// client numbers its operations from 1). Their session lost the primary role, so they need not be
 	// answered and the implementation may keep or drop them; if one resolves, its result arrives on the
 	// current primary's stream under an id that stream also uses (known finding KF-C06-1).
-	shadow map[uint64]*opRec
+	shadow        map[uint64]*opRec
 	perNIFlush    bool
 	maxElec       [2]uint64
 	modelStates   map[uint64]bool
@@ -996,6 +996,28 @@ func (e *env) postChangeHook(ot constants.OpType, ts int64, ni string, data ygot
 	default:
 		e.hookErr = append(e.hookErr, fmt.Sprintf("unknown op type %v", ot))
 	}
+}
+
+// checkHooksAgainstImpl is the model-free form of checkHooks for the concurrent families: the
+// notifications are judged against themselves and against the implementation's own RIB contents.
+func (e *env) checkHooksAgainstImpl(when string) {
+	if len(e.hookErr) > 0 {
+		e.report("C16", "hook-bad-notification", "notification inconsistent with itself under concurrent writers", strings.Join(e.hookErr, "; ")+" ("+when+")", false)
+	}
+	impl := e.implSnapshot()
+	if impl == nil {
+		return
+	}
+	fold := Snapshot{}
+	for _, s := range e.hookFold {
+		for k, v := range s {
+			fold[k] = v
+		}
+	}
+	for _, d := range diffSnap(impl, fold) {
+		e.report("C16", "hook-fold-mismatch", d.What+" under concurrent writers", d.String()+" ("+when+")", false)
+	}
+	e.probe("hook notifications judged against the implementation's RIB")
 }
 
 func (e *env) checkHooks() {
